@@ -542,6 +542,10 @@ def gen_cases(tier):
             yield ("fan", dA, (f1, f2), "none", "program", False)
         for f1, f2 in itertools.product(["only", "rename", "only+rename", "two-stmts"], repeat=2):
             yield ("double", dA, (f1, f2), "none", "modproc", False)
+        # a default-public module that declares some of what it imports PRIVATE: those are not re-exported
+        for f1, f2 in itertools.product(["plain", "only", "rename", "only+rename"], repeat=2):
+            for c in ("modproc", "program", "internal"):
+                yield ("chain2", dA, (f1, f2), "none", c, True)
         # a USE without any list next to one with a list, either order: everything public, plus the local names
         for f2 in ("only", "only+rename", "only-twice", "only-upper"):
             for c in ("modproc", "program", "module"):
